@@ -32,17 +32,25 @@ fn stage_huge(i: &Input, c: &mut Case) -> Result<(), String> {
 fn run_case(t: &mut Tape, c: &mut Case, huge: bool) -> Result<(), String> {
     let raw_variant = t.chance(1, 5);
     let to = TreeOpts { pay: PayOpts { big_left: if huge { 2 } else { 1 }, huge, max_small: 40 }, deep: t.chance(1, 3), ..TreeOpts::default() };
-    let eo = EncOpts { widths: true, unknown: !raw_variant, full: true, noncanonical: false };
+    let eo = EncOpts { widths: true, unknown: true, full: true, noncanonical: false };
     let mut d = gen_doc(t, SpecOpts::default(), to, eo);
     note_cleared(c, &d);
     let mut tol = 0;
     if raw_variant {
         let n = insert_raw_tags(t, &d.spec.table().clone(), &mut d.forest);
+        // an element the specification does not know never ends an unknown-size master (RFC 8794 6.2), so directly after one it would be
+        // read as part of it: same exclusion as for global elements (4.1-b); inside unknown-size masters raw tags are welcome
+        let cl = sanitize_unknown(d.spec.table(), &mut d.forest, true);
+        d.cleared.0 += cl.0;
+        d.cleared.1 += cl.1;
+        for _ in 0..cl.1 {
+            c.exclude("raw_tag_directly_after_unknown_size_master");
+        }
         fix_widths(&mut d.forest);
         if n > 0 {
             tol = TOL_IDS;
         }
-        c.exclude("unknown_size_disabled_in_raw_tag_variant");
+        c.label_if(n > 0 && any_node(&d.forest, &|m| m.is_master() && m.enc.unknown && m.children().iter().any(|x| matches!(x.kind, NodeKind::Leaf(Payload::Raw(_))))), "raw_tag_inside_unknown_size_master");
     }
     // probe: an element whose size equals the all-ones value of an explicitly requested width (127 in 1 byte, 16383 in 2):
     // the writer must either reject it (then it is not part of the accepted sequence) or emit something that reads back
